@@ -136,6 +136,8 @@ def default_source(kind, mode):
     K = KINDS[kind]
     if mode == "none":
         return ""
+    if mode == "nonedefault":
+        return " = None"  # a raw default that does not conform (not in DEFAULT_MODES; used by C03 only)
     if mode == "lit":
         return f" = {K['lit']}" if "lit" in K else None
     if mode == "mut":
@@ -143,6 +145,8 @@ def default_source(kind, mode):
     src = K.get("mut", K.get("lit"))
     if mode == "attr_default":
         return f" = Attr(default={src})"
+    if mode == "attr_noinit":
+        return f" = Attr(default={src}, init=False)"  # (not in DEFAULT_MODES: the constructor takes no such keyword)
     if mode == "attr_factory":
         return f" = Attr(default_factory=lambda: (CB.hit('factory'), {src})[1])"
     if mode == "field_default":
@@ -160,6 +164,8 @@ def default_spec(kind, mode):
     K = KINDS[kind]
     if mode == "none":
         return ["MISSING"]
+    if mode == "nonedefault":
+        return None
     if mode == "lit":
         return K["lit_spec"]
     if mode == "mut":
@@ -301,6 +307,10 @@ def class_source(rec):
         lines += [deco(), f"class {name}Base:"] + body(attrs)
         a0 = attrs[0]
         lines += ["", f"class {name}({name}Base):", f"    {attr_name(a0)} = {REDEFAULT_SRC[a0['kind']]}"]
+    elif inherit == "plain_sub_baddefault":
+        # a plain subclass overriding the default with a value of the wrong type
+        lines += [deco(), f"class {name}Base:"] + body(attrs)
+        lines += ["", f"class {name}({name}Base):", f"    {attr_name(attrs[0])} = ('bad', 'default')"]
     elif inherit == "two_levels":
         lines += [deco(), f"class {name}Root:"] + body(base_attrs, with_hooks=False)
         lines += ["", f"class {name}Mid({name}Root):", "    pass"]
@@ -513,13 +523,24 @@ def t_same(v):
     return copy.deepcopy(v)
 
 
+def t_eqbad(v):
+    """a value of the wrong type that is EQUAL to (int -> float) / keyed like (keyed item -> its bare key) the old one:
+    a membership test cannot tell it from the conforming original"""
+    CB.hit("transform")
+    if isinstance(v, int) and not isinstance(v, bool):
+        return float(v)
+    if hasattr(type(v), "__spec_class__") and getattr(type(v).__spec_class__, "key", None):
+        return getattr(v, type(v).__spec_class__.key)
+    return ("bad", "type")
+
+
 def t_ident(v):
     """hands back the very object it was given (a transform need not build a new value)"""
     CB.hit("transform")
     return v
 
 
-TRANSFORMS = {"inc": t_inc, "bad": t_bad, "missing": t_missing, "raise": t_raise, "same": t_same, "ident": t_ident}
+TRANSFORMS = {"inc": t_inc, "bad": t_bad, "missing": t_missing, "raise": t_raise, "same": t_same, "ident": t_ident, "eqbad": t_eqbad}
 
 
 # ------------------------------------------------------------------------------------------------
@@ -561,6 +582,18 @@ def lookup_records():
     return [
         {"name": "LookupLeaf", "attrs": [{"kind": "leaf", "default": "none", "lookup": True}, {"kind": "int", "default": "lit"}], "opts": {}},
         {"name": "LookupKids", "attrs": [{"kind": "kids", "default": "mut", "lookup": True}, {"kind": "int", "default": "lit"}], "opts": {}},
+    ]
+
+
+def bad_default_records():
+    """raw class-level defaults that do not conform to the annotation (C03: they must never be (re-)installed)"""
+    return [
+        single("nums", "nonedefault"),
+        single("scores", "nonedefault"),
+        {"name": "BadDefaultInv", "attrs": [{"kind": "int", "default": "lit"}, {"kind": "nums", "default": "nonedefault"}],
+         "opts": {"invalidated_by": {"nums": ["v"]}}},
+        single("int", "lit", inherit="plain_sub_baddefault"),
+        single("nums", "mut", inherit="plain_sub_baddefault"),
     ]
 
 
